@@ -35,6 +35,8 @@ def enum_of_type(ty):
     return t if i < 0 else t[:i]
 
 
+_INT_DEFAULTS = ("u8", "u16", "u32", "u64", "u128", "usize", "i8", "i16", "i32", "i64", "i128", "isize")
+
 # single-field private structs introduced by an edit (not part of the pinned tree): transparent for Expr.strip
 NEWTYPES = set()
 
@@ -1350,6 +1352,9 @@ class Body:
                 return Expr("call", [f] + args, path="<indirect>", site=site, info=None)
             if "value" in c and not args:
                 return Expr("const", v=int(c["value"]), ty="usize", from_call=c["inst"])
+            if not args and c.get("path") == "std::default::Default::default" and len(c.get("args") or []) == 1 and c["args"][0] in _INT_DEFAULTS:
+                # `<usize as Default>::default()` — what a derived `Default` puts in an integer field
+                return Expr("const", v=0, ty=c["args"][0], from_call=c.get("inst", ""))
             return Expr("call", args, path=callee_name(c), site=site, info=c, ty=payload["dest"].get("ty", ""))
         rv = payload
         k = rv["rv"]
